@@ -302,7 +302,7 @@ def packages(variant, L):
         if i:
             d.blank()
         pkg = d.leaf()
-        srcfield = [pkg[:0] + d.leaf() + B(b' (1.0)'), None][i]
+        srcfield = [(pkg + B(b'-defaults (1.0)')) if variant == 'b' else (d.leaf() + B(b' (1.0)')), None][i]
         up, rev = d.leaf(DIGITS, LOWD + b'.'), d.leaf(LOWD, LOWD)
         maint = d.leaf(TXT, TXT) + B(b' <m@x>')
         arch = [b'amd64', b'all'][i]
